@@ -16,6 +16,8 @@ def classify_error(msg):
     if m: return ("Unmatched", m.group(1), m.group(2), None)
     m = re.search(r"B&B reservation exceeds buy amount for (\S+) on (\d{4}-\d\d-\d\d)", msg)
     if m: return ("ResvExceeds", m.group(1), m.group(2), None)
+    m = re.search(r"SELL (\S+) on (\d{4}-\d\d-\d\d): a split ratio of 0 applies", msg)
+    if m: return ("ZeroRatio", m.group(1), m.group(2), None)
     m = re.search(r"CAPRETURN (\S+) on (\d{4}-\d\d-\d\d): capital distribution", msg)
     if m: return ("CapExceeds", m.group(1), m.group(2), None)
     m = re.search(r"Unsupported tax year (\d+)", msg)
@@ -77,8 +79,7 @@ def compare_outcome(model, rust):
     """accept/reject agreement and error class.  Returns list of diffs (observable 'accept')."""
     diffs = []
     if rust.get("stage") == "panic":
-        if model["ok"] or not any(e["kind"] == "CrashDivZero" for e in model["errors"]):
-            diffs.append(("accept", "code panics: %s" % rust["error"][:120], "model: %s" % ("ok" if model["ok"] else model["errors"][:2])))
+        diffs.append(("accept", "code panics: %s" % rust["error"][:120], "model: %s" % ("ok" if model["ok"] else model["errors"][:2])))
         return diffs
     if model["ok"] != rust["ok"]:
         diffs.append(("accept", "model ok=%s%s" % (model["ok"], "" if model["ok"] else " " + str(model["errors"][:2])),
@@ -93,6 +94,8 @@ def compare_outcome(model, rust):
             if k in ("ExceedsHolding", "NoPrior", "Unmatched"):
                 # the position test and the ledger+pool test are one class for the property
                 if cls in ("ExceedsHolding", "NoPrior", "Unmatched") and tick == e["tick"] and date == iso_of_ordinal(e["date"]): ok = True
+            elif k == "CrashDivZero":     # the model's name for "a zero cumulative ratio reached the look-ahead's division"
+                if cls == "ZeroRatio" and tick == e["tick"] and date == iso_of_ordinal(e["date"]): ok = True
             elif k in ("ResvExceeds", "CapExceeds"):
                 if cls == k and tick == e["tick"] and date == iso_of_ordinal(e["date"]): ok = True
             elif k == "NoExemption":
